@@ -8,7 +8,7 @@ CONSTANTS
   NoIslands = TRUE
   InitVals <- Init_M1
   Kinds <- AllKinds
-VIEW ViewNoEv
+VIEW ViewRet
 INVARIANT TypeOK
 INVARIANT CyclesClosed
 INVARIANT NoMixedCoupling
